@@ -101,9 +101,42 @@ def _all_literals(n):
     return True
 
 
+def _expand_const_local(f, e, depth=0):
+    """a discriminator kept in a local that is initialised once and never modified stands for its initialiser"""
+    e0 = strip(e, casts=True)
+    if e0 is None or e0.kind != 'DeclRefExpr' or e0.refkind != 'VarDecl' or depth > 3:
+        return e
+    decl = None
+    for n in f.body.walk():
+        if n.kind == 'VarDecl' and n.id == e0.refid:
+            decl = n
+        elif (n.kind == 'BinaryOperator' and n.op == '=') or n.kind == 'CompoundAssignOperator' or (n.kind == 'UnaryOperator' and n.op in ('++', '--', '&')):
+            t = strip(n.kids[0])
+            if t.kind == 'DeclRefExpr' and t.refid == e0.refid:
+                return e
+    if decl is None or not decl.kids or not decl.init:
+        return e
+    return _expand_const_local(f, decl.kids[-1], depth + 1)
+
+
+def neutral_disc(node, limit=60):
+    """pretty-printed discriminator with the names of locals and parameters replaced by $1, $2, ... in order of first
+    appearance: the family key survives a consistent renaming of variables"""
+    import re
+    names = []
+    for x in node.walk():
+        if x.kind == 'DeclRefExpr' and x.refkind in ('VarDecl', 'ParmVarDecl') and x.ref and x.ref not in names and x.ref != 'm4ri_radix':
+            names.append(x.ref)
+    t = pp(node)
+    for i, nme in enumerate(names):
+        t = re.sub(r'(?<![A-Za-z0-9_>.])%s(?![A-Za-z0-9_])' % re.escape(nme), '$%d' % (i + 1), t)
+    return t[:limit]
+
+
 class Family(object):
-    def __init__(self, func, kind, anchor, members, disc=None):
+    def __init__(self, func, kind, anchor, members, disc=None, ndisc=None):
         self.func, self.kind, self.anchor, self.members, self.disc = func, kind, anchor, members, disc
+        self.ndisc = ndisc if ndisc is not None else disc
         # members: list of (index, [stmt nodes])
 
     def key(self):
@@ -285,7 +318,8 @@ def switch_families(f):
             mem.sort(key=lambda x: -x[0])
         # calls to m4ri_die in default are not members
         if len(mem) >= 3:
-            out.append(Family(f, 'switch', sw, mem, disc=pp(sw.kids[-2])[:60]))
+            sel = _expand_const_local(f, sw.kids[-2])
+            out.append(Family(f, 'switch', sw, mem, disc=pp(sw.kids[-2])[:60], ndisc=neutral_disc(sel, 60)))
     return out
 
 
@@ -317,7 +351,7 @@ def run_families(f, minlen=8):
 
         def close():
             if len(run) >= minlen:
-                out.append(Family(f, 'run', run[0], [(i, [s]) for i, s in enumerate(run)], disc=pp(run[0])[:50]))
+                out.append(Family(f, 'run', run[0], [(i, [s]) for i, s in enumerate(run)], disc=pp(run[0])[:50], ndisc=neutral_disc(run[0], 50)))
         for s in comp.kids:
             if s.kind in ('CaseStmt', 'DefaultStmt', 'DeclStmt', 'IfStmt', 'ForStmt', 'WhileStmt', 'DoStmt', 'SwitchStmt', 'BreakStmt', 'ReturnStmt', 'CompoundStmt'):
                 close()
@@ -356,11 +390,11 @@ def rule_B1(ctx, prog, label, only_funcs=None, rule='B1'):
     bykey = dict((e['key'], e) for e in frozen)
     ordn = {}
     for fm in fams:
-        k0 = (fm.func.name, fm.kind, fm.disc)
+        k0 = (fm.func.name, fm.kind, fm.ndisc)
         ordn[k0] = ordn.get(k0, 0) + 1
         if only_funcs is not None and fm.func.name not in only_funcs:
             continue
-        ent = bykey.get('%s|%s|%s|#%d' % (fm.func.name, fm.kind, fm.disc, ordn[k0]))
+        ent = bykey.get('%s|%s|%s|#%d' % (fm.func.name, fm.kind, fm.ndisc, ordn[k0]))
         if ent is None:
             continue          # auto-discovered, not armed (information only)
         seen_frozen.add(ent['key'])
@@ -637,8 +671,8 @@ def rule_B5(ctx, prog, label, rule='B5'):
                 for b in p_.find('CallExpr'):
                     if callee_name(b) == 'mzd_make_table' and len(b.kids) >= 7:
                         t = strip(b.kids[5], casts=True)
-                        if t.kind == 'DeclRefExpr':
-                            builders.setdefault(t.ref, b)
+                        if t.kind in ('DeclRefExpr', 'ArraySubscriptExpr'):
+                            builders.setdefault(pp(t), b)
                 if builders:
                     break
                 p_ = fs.enclosing(p_, ('CompoundStmt',))
@@ -648,7 +682,7 @@ def rule_B5(ctx, prog, label, rule='B5'):
             for j, tp in enumerate(tparams):
                 rr.instances += 1
                 targ = strip(c.kids[1 + callee.params.index(tp)], casts=True)
-                b = builders.get(targ.ref) if targ.kind == 'DeclRefExpr' else None
+                b = builders.get(pp(targ)) if targ.kind in ('DeclRefExpr', 'ArraySubscriptExpr') else None
                 if b is None:
                     rr.ob(False, None, Finding(rule, '%s|%s|%s|T%d|nobuilder' % (rule, f.name, callee.name, j), c.loc, f.name,
                                                'no mzd_make_table call for table argument `%s` of %s in the same block' % (pp(targ), callee.name), {}, label))
@@ -669,7 +703,7 @@ def rule_B5(ctx, prog, label, rule='B5'):
                 # row offset = first builder's row + sum of earlier widths
                 if ok and j > 0:
                     row = fs0.sym(b.kids[2])
-                    first = builders.get(strip(c.kids[1 + callee.params.index(tparams[0])], casts=True).ref)
+                    first = builders.get(pp(strip(c.kids[1 + callee.params.index(tparams[0])], casts=True)))
                     base = fs0.sym(first.kids[2]) if first is not None else None
                     want = base
                     for w_ in widths[:j]:
